@@ -328,8 +328,8 @@ class Run:
                 hsh = hashlib.sha1(json.dumps(body, sort_keys=True).encode()).hexdigest()[:12]
                 replay = os.path.join(rdir, "%s-%s.json" % (self.pid, hsh))
                 json.dump(body, open(replay, "w"), indent=1)
-                print("VIOLATION property=%s replay=%s guard=%s sig=%s" % (
-                    self.pid, replay, v.get("guard"), v.get("sig")))
+                print("VIOLATION property=%s replay=%s" % (self.pid, replay), flush=True)
+                log("violation detail: guard=%s sig=%s line=%s file=%s" % (v.get("guard"), v.get("sig"), v.get("line"), v.get("file")))
         if other:
             oth = sorted({"%s(%s)" % (v.get("guard"), self.pmap.get(v.get("guard"), "?")) for v in other})
             self.notes.append("guards of other properties failed on these traces (reported by their own check): "
